@@ -148,8 +148,64 @@ def run_birth(p: Dict[str, Any]) -> Tuple[List[str], str]:
     return problems, obs
 
 
+def run_threaded(p: Dict[str, Any]) -> Tuple[List[str], str]:
+    """The synchronous API's browser (zc.add_service_listener -> a ServiceBrowser with its own OS thread): a listener
+    callback is still running - for `hold_s` more real seconds - when close() is called from the application thread, and
+    another event is queued behind it.  close() must not return before every owed callback has been delivered.
+    (Real thread, real seconds: the only part of this check that is not under the virtual scheduler; the enumerated
+    dimension is how long the callback outlasts the close request.)"""
+    import threading
+    import time as real_time
+
+    problems: List[str] = []
+    with World(rand=RandPolicy.const(0.0)) as w:
+        host = w.new_zeroconf()
+        calls: List[Tuple[float, str, str]] = []
+        entered, release = threading.Event(), threading.Event()
+
+        class L:
+            def add_service(self, zc: Any, t: str, n: str) -> None:
+                calls.append((real_time.monotonic(), "add", n))
+                if len(calls) == 1:
+                    entered.set()
+                    release.wait(60)
+
+            def remove_service(self, zc: Any, t: str, n: str) -> None: calls.append((real_time.monotonic(), "rm", n))
+            def update_service(self, zc: Any, t: str, n: str) -> None: calls.append((real_time.monotonic(), "upd", n))
+
+        with w.outside():
+            host.zc.add_service_listener(TB, L())
+        w.settle()
+        w.advance(200)
+        for k in (1, 2):
+            w.net.inject(host, wire.response([("PTR", TB, 1, 4500, f"t{k}._b._tcp.local.")]), ("10.0.0.97", 5353))
+            w.settle()
+        if not entered.wait(10):
+            raise HarnessError("threaded browser never delivered its first callback")
+        timer = threading.Timer(p["hold_s"], release.set)
+        timer.start()
+        with w.outside():
+            host.zc.close()
+        t_ret = real_time.monotonic()
+        release.set()
+        real_time.sleep(0.4)
+        timer.cancel()
+        late = [(round(t - t_ret, 2), k, n) for t, k, n in calls if t > t_ret]
+        if late:
+            problems.append(f"callbacks: {late} fired after close() returned (a callback was still running for "
+                            f"{p['hold_s']} s when close was called)")
+        if len(calls) < 2 and not late:
+            problems.append(f"callbacks: the queued callback was never delivered ({calls})")
+        excs = w.exceptions()
+        if excs:
+            problems.append(f"exception: {excs[0]}")
+    return problems, digest((len(calls), bool(late)))
+
+
 def points(tier: str) -> List[Dict[str, Any]]:
     pts: List[Dict[str, Any]] = []
+    for hold in ((0.05, 1.1, 3.3) if tier == "quick" else (0.05, 0.5, 1.1, 3.3, 5.5, 11.0)):
+        pts.append({"scenario": "threaded-browser", "hold_s": hold, "mode": "sync_close", "jitter": 0.0, "close_at_us": 0})
     for socks in ("single", "dual"):
         for k in range(0, 12):
             pts.append({"scenario": "at-birth", "socks": socks, "k": k, "mode": "async_close", "jitter": 0.0, "close_at_us": 0})
@@ -173,8 +229,8 @@ def points(tier: str) -> List[Dict[str, Any]]:
 
 def run_point(p: Dict[str, Any], verbose: bool = False) -> Tuple[Optional[Dict[str, Any]], str, int]:
     problems: List[str] = []
-    if p["scenario"] == "at-birth":
-        problems, obs = run_birth(p)
+    if p["scenario"] in ("at-birth", "threaded-browser"):
+        problems, obs = run_birth(p) if p["scenario"] == "at-birth" else run_threaded(p)
         verdict = None
         if problems:
             verdict = {"what": f"C17 {p}: {problems[0][:600]}", "replay": {"problems": problems[:5]},
